@@ -86,7 +86,8 @@ theorem lineCol_in_source (src : Str) (pos : Nat) :
 theorem syntax_error_has_name (src : Str) (opts : TemplateOptions)
     (h : Pest.parse Grammar.rules Grammar.ws .r_handlebars src = .fail) :
     compile2 src opts = .err { reason := .invalidSyntax, name := some opts.nameOrDefault } := by
-  unfold compile2
+  unfold compile2 compile2Inner
   rw [h]
+  rfl
 
 end Hbs.C18
